@@ -174,6 +174,39 @@ fn nested_sweep() -> Sweep {
     })
 }
 
+fn type_pair_sweep(tier: Tier) -> Sweep {
+    let g = crate::model::grammar::Grammar::load();
+    let fam = Rc::new(sem::type_pair_family(tier.pick(60, 140), tier));
+    let f2 = fam.clone();
+    let f3 = fam.clone();
+    Sweep::new(
+        "type-pair family: the members the reference checker accepts",
+        fam.len() as u64,
+        move |idx| {
+            let text = &fam[idx as usize];
+            count!("evaluations");
+            let verdict = surface::parse_text(&g, text).and_then(|s| surface::resolve(&s, &[]).ok()).map(|m| sem::reference_check(&m, None));
+            match verdict {
+                Some(RefVerdict::WellTyped) => {
+                    count!("reference_accepts");
+                    count!("type_pairs_convertible");
+                    check_annotated(text, None, "type-pair family");
+                }
+                Some(RefVerdict::Unknown) => count!("skipped_fuel"),
+                None => crate::infra::machinery(&format!("type-pair program is not read by the grammar / scope model: {text}")),
+                _ => count!("reference_rejects"),
+            }
+        },
+        move |idx| f2[idx as usize].clone(),
+    )
+    .with_post_abort(move |idx, kind| AbortVerdict::Violation {
+        sub: "abnormal-ending-on-well-typed-program".to_owned(),
+        input: f3[idx as usize].clone(),
+        expected: "a verdict".to_owned(),
+        actual: kind.to_owned(),
+    })
+}
+
 fn small_sweep(max_nodes: usize) -> Sweep {
     let space = Rc::new(RefCell::new(sem::small_term_space()));
     let total = space.borrow_mut().total_upto(max_nodes);
@@ -217,12 +250,12 @@ impl Prop for C05 {
         "C05"
     }
     fn sweeps(&self, tier: Tier) -> Vec<Sweep> {
-        vec![typed_sweep(tier), alias_sweep(tier.pick(2, 3)), nested_sweep(), small_sweep(tier.pick(6, 7))]
+        vec![typed_sweep(tier), alias_sweep(tier.pick(2, 3)), nested_sweep(), small_sweep(tier.pick(6, 7)), type_pair_sweep(tier)]
     }
     fn evidence(&self, tier: Tier) -> EvidenceSpec {
         EvidenceSpec {
             level: "exploration",
-            rule: "every program produced by type-directed enumeration up to the size bound (goal types int, bool, type, int -> int, bool -> int, (int -> int) -> int, bool -> type, (a : type) -> a -> a; variables, literals, arithmetic, comparison, conditional, lambda, application incl. beta-redexes and higher-order arguments, groups of one and two definitions with recursion, mutual recursion and forward type aliases, computed annotations, polymorphic identity) and every closed fully annotated term up to the node bound over a 9-atom / 8-former alphabet that the reference checker accepts; each must be accepted by the real front end with a type convertible to the expected one, and the elaborated term must be the source term with holes filled (lock-step skeleton comparison). Rejections by the definition-order check alone are counted, not judged. non-trivial = accepted programs whose skeleton was compared".to_owned(),
+            rule: "every program produced by type-directed enumeration up to the size bound (goal types int, bool, type, int -> int, bool -> int, (int -> int) -> int, bool -> type, (a : type) -> a -> a; variables, literals, arithmetic, comparison, conditional, lambda, application incl. beta-redexes and higher-order arguments, groups of one and two definitions with recursion, mutual recursion and forward type aliases, computed annotations, polymorphic identity) and every closed fully annotated term up to the node bound over a 9-atom / 8-former alphabet that the reference checker accepts; each must be accepted by the real front end with a type convertible to the expected one, and the elaborated term must be the source term with holes filled (lock-step skeleton comparison). Also every member the reference accepts of the type-pair family: ordered pairs of the smallest generated types and of all definition groups denoting types (1-2 / 1-3 members, aliases in both directions) meeting at an argument, at the branches of a conditional and at an annotated definition; the same for open types under two type parameters with a type-level function whose body is a group; and pairs of terms of five kinds (incl. the implicit polymorphic identity) under an opaque type constructor after instantiating a dependent codomain. A rejection by the definition-order check alone is a violation unless the reference model of the rule (sem::order_rule_violated) finds a computed definition that needs a later computed definition. non-trivial = accepted programs whose skeleton was compared".to_owned(),
             assumptions: vec![
                 "typing rules of DESIGN.md 5.6 (engine/src/model/typing.rs): type : type, `_` has type type, implicit functions cannot be applied, conversion ignores lambda annotations, no eta".to_owned(),
                 "programs on which the reference runs out of fuel are skipped (counted)".to_owned(),
